@@ -35,7 +35,9 @@ class GeminiProtocol(BaseGopherProtocol):
         selector = url_parts.path
         searchrequest = url_parts.query
 
-        if selector.startswith(self.query_prefix):
+        if selector == self.query_prefix or selector.startswith(
+            self.query_prefix + "/"
+        ):
             self.handle_input(selector, searchrequest)
             return
 
